@@ -9,3 +9,4 @@ include!("/verif/harness/common.rs");
 include!(env!("VERIF_SLICE_C15"));
 include!(env!("VERIF_SLICE_C06"));
 include!(env!("VERIF_SLICE_C11"));
+include!(env!("VERIF_SLICE_C07"));
